@@ -58,6 +58,12 @@ func (sc *SchemaCache) Schema(src protoreflect.MessageDescriptor) (RootSchema, e
 	if err == nil && built.FullName() != placeholder.FullName() {
 		err = fmt.Errorf("schema %q has wrong name %q", placeholder.FullName(), built.FullName())
 	}
+	if err == nil {
+		placeholder.To = built
+		// Objects which flatten an object that was still being built
+		// could not be checked at the time.
+		err = sc.build.checkFlattenedNames()
+	}
 	if err != nil {
 		// Nothing built by a failed call stays in the cache: the schemas
 		// would be left with references that are never linked.
@@ -66,7 +72,6 @@ func (sc *SchemaCache) Schema(src protoreflect.MessageDescriptor) (RootSchema, e
 		}
 		return nil, err
 	}
-	placeholder.To = built
 	return placeholder.To, nil
 }
 
